@@ -193,6 +193,8 @@ def szCmd (l : Limits) (ctor : String) (a : List Int) : Option SzR :=
     some (andThen (allocateArray n l.maxArray) fun a => andThen (allocateArray k l.maxArray) fun b => partOf a (a - b))
   | "array_and", [n, k] =>
     some (andThen (allocateArray n l.maxArray) fun a => andThen (allocateArray k l.maxArray) fun b => partOf a b)
+  | "filter_mapping", [n, kept] => some (andThen (mapInsertMany 0 n.toNat l.maxMapping) fun c => partOf c kept.toNat)
+  | "map_mapping", [n] => some (andThen (mapInsertMany 0 n.toNat l.maxMapping) sameSize)
   | "keys", [n] => some (andThen (mapInsertMany 0 n.toNat l.maxMapping) fun c => mapKeys c l.maxArray)
   | "values", [n] => some (andThen (mapInsertMany 0 n.toNat l.maxMapping) fun c => mapKeys c l.maxArray)
   | "allocate_mapping", [n] => some (allocateMapping n)
